@@ -159,7 +159,7 @@ func runC12(c *core.Ctx) {
 						})
 					}
 				}
-				o.Require(nIf == 1 && nInc == 1, "case %s must consume exactly one (guarded) byte, found %d guards / %d increments", name, nIf, nInc)
+				o.Shape(nIf == 1 && nInc == 1, "case %s must consume exactly one (guarded) byte, found %d guards / %d increments", name, nIf, nInc)
 				br, ok := cc.Body[len(cc.Body)-1].(*ast.BranchStmt)
 				o.Require(ok && br.Tok == token.FALLTHROUGH, "case %s must fall through to the next lower case", name)
 				_ = info
@@ -203,7 +203,7 @@ func runC12(c *core.Ctx) {
 				return true
 			})
 		}
-		o.Require(n >= 4, "expected at least four reads of s[0], found %d", n)
+		o.Shape(n >= 4, "expected at least four reads of s[0], found %d", n)
 		// the first read is followed by consumed++ before the node lookup
 		var firstInc *core.V
 		for _, v := range g.Vs {
@@ -329,7 +329,7 @@ func runC12(c *core.Ctx) {
 				}
 			}
 		}
-		o.Require(okLeaf && okSub, "expected the cases 'all children are leaves' and 'no child is a leaf'")
+		o.Shape(okLeaf && okSub, "expected the cases 'all children are leaves' and 'no child is a leaf'")
 		src := c.Prog.Src(fn.Decl.Body)
 		// errors of the recursive call propagate
 		o.Shape(strings.Contains(src, "cc,dd,err:=newTree(childRanges,depth+1)iferr!=nil{returnnil,nil,err}"), "an error from the recursive construction is not propagated")
@@ -852,7 +852,7 @@ func ruleAppendCodeShifts(c *core.Ctx) {
 			}
 		}
 		o.Fact("%d byte(code) sites, %d shifts", len(uses), len(shifts))
-		o.Require(len(uses) >= 3 && len(shifts) >= 2, "byte(code)/shift sites not found")
+		o.Shape(len(uses) >= 3 && len(shifts) >= 2, "byte(code)/shift sites not found")
 		for _, u := range uses {
 			o.Count(1)
 			after := g.ReachFrom(u, false, core.AvoidVs(shifts...))
